@@ -262,6 +262,14 @@ class Check:
         self.violations.append((what, replay, found_input))
 
     def finish(self) -> int:
+        # scripted consoles frame their messages with the package's own encoders: cross-check them with the model's
+        con = sys.modules.get("harness.console")
+        if con is not None and any(con.FRAMED[g] for g in (4, 5)) and not getattr(self, "_framed_done", False):
+            self._framed_done = True
+            try:
+                con.verify_framed(self)
+            except RuntimeError as ex:
+                self.violation("console frames could not be verified against the protocol model", {"error": str(ex)[-400:]}, found_input=False)
         wall = time.time() - self.t0
         for msg in self.known_hits:
             print(msg)
